@@ -25,6 +25,7 @@ class Run:
     def __init__(self, sc, build=None, follow=True, taps=None):
         self.sc = sc
         w = self.w = vt.World(sc.get("clock", "test"))
+        w.fault_cls = vt.FAULT_CLASSES[sc.get("exc")]
         vt.make_sources(w, sc["sources"])
         w.set_faults(sc.get("faults"))
         self.build_error = None
